@@ -44,6 +44,15 @@ pub fn eval_presentation(t: &[char], style: u8, ctx: u8, ch: &mut Ch, acc: &mut 
             text.replace('\n', if k == 1 { "\r\n" } else { "\r" })
         }
     };
+    // ... and whether the stream keeps its final line break
+    let text = if ch.flag() {
+        match text.strip_suffix("\r\n").or_else(|| text.strip_suffix('\n')).or_else(|| text.strip_suffix('\r')) {
+            Some(t) => t.to_string(),
+            None => return,
+        }
+    } else {
+        text
+    };
     acc.evals += 1;
     let target: String = t.iter().collect();
     let want = (target.clone(), style_of(style));
@@ -147,7 +156,7 @@ pub fn replay(case: &Value) -> Result<Acc, String> {
 
 pub fn check(tier: Tier) -> i32 {
     let mut rep = Report::new("C04", tier, "model_checking");
-    rep.rule = "abstract values: every target string up to length L over {a, space, LF, tab, ':', '#', ''', '\"', '\\', '-', 'é', '['} plus one-character targets for boundary code points; for each style (plain, single, double) and each of 8 syntactic contexts the presentation model enumerates ALL choice vectors with at most d deviations (per-character literal / \\x / \\u / \\U, tab literal or \\t, where to fold a space or a run of line feeds, continuation indentation, trailing blank padding before a fold, escaped line breaks, a comment line in front that makes the scalar straddle the 16-character input buffer); the real parser (StrInput and BufferedInput) must report Scalar(value == target, style). Plus fixed tables: every named escape, all 256 \\xHH in both cases, boundary \\u/\\U code points, and invalid escapes (surrogates, out of range, unknown, short) which must be errors. The last choice point writes the line breaks of the presentation as LF, CRLF or CR. Non-trivial: every representable presentation; distinct: distinct rendered texts.".into();
+    rep.rule = "abstract values: every target string up to length L over {a, space, LF, tab, ':', '#', ''', '\"', '\\', '-', 'é', '['} plus one-character targets for boundary code points; for each style (plain, single, double) and each of 8 syntactic contexts the presentation model enumerates ALL choice vectors with at most d deviations (per-character literal / \\x / \\u / \\U, tab literal or \\t, where to fold a space or a run of line feeds, continuation indentation, trailing blank padding before a fold, escaped line breaks, a comment line in front that makes the scalar straddle the 16-character input buffer); the real parser (StrInput and BufferedInput) must report Scalar(value == target, style). Plus fixed tables: every named escape, all 256 \\xHH in both cases, boundary \\u/\\U code points, and invalid escapes (surrogates, out of range, unknown, short) which must be errors. The last two choice points write the line breaks of the presentation as LF, CRLF or CR and drop the final line break of the stream. Non-trivial: every representable presentation; distinct: distinct rendered texts.".into();
     rep.assumptions = vec!["targets that are not representable in a style/context (by the ns-plain / nb-single-char productions) are skipped by the model".into(), "an escaped line break is never placed directly before a fold".into()];
     let budget = Budget::new(wall_cap(tier));
     rep.mandatory_scopes = 2;
@@ -169,7 +178,9 @@ pub fn check(tier: Tier) -> i32 {
         let t = &targets[b as usize];
         for style in 0..3u8 {
             for ctx in 0..8u8 {
-                let (c, tr) = explore(d, &mut |ch: &mut Ch| eval_presentation(t, style, ctx, ch, acc));
+                // thorough: the full deviation budget for targets up to 4 characters, one less for longer ones
+                let dd = if tier == Tier::Thorough && t.len() >= 5 { d - 1 } else { d };
+                let (c, tr) = explore(dd, &mut |ch: &mut Ch| eval_presentation(t, style, ctx, ch, acc));
                 acc.count("choice_vectors", c);
                 acc.count("choice_edges", tr);
             }
@@ -179,7 +190,7 @@ pub fn check(tier: Tier) -> i32 {
     let states = acc.counters.get("choice_vectors").copied().unwrap_or(0);
     let trans = acc.counters.get("choice_edges").copied().unwrap_or(0);
     rep.acc.merge(acc);
-    rep.scope(&format!("targets <= {l} ({}) x 3 styles x 8 contexts x <= {d} deviations", targets.len()), n, done == targets.len() as u64);
+    rep.scope(&format!("targets <= {l} ({}) x 3 styles x 8 contexts x <= {d} deviations{}", targets.len(), if tier == Tier::Thorough { " (one less for targets of 5 and more characters)" } else { "" }), n, done == targets.len() as u64);
     let table = escape_table();
     let (acc, done) = par_blocks(table.len() as u64, &budget, |b, acc| eval_escape(&table[b as usize].0, &table[b as usize].1, acc));
     let n = acc.evals;
